@@ -18,6 +18,16 @@ from tola.assembly.scaffold import Scaffold
 ALPHA = [("F", 1, 1), ("F", 2, 1), ("F", 3, -1), ("G", 1, 0), ("G", 2, 0)]
 
 
+# scaffolds of 19..31 rows (a lookup that treats near and far neighbours differently needs many rows)
+MANYROWS = [
+    [ALPHA[i % 2] if j % 2 == 0 else ALPHA[3] for j, i in enumerate(range(25))],
+    [ALPHA[1]] * 19,
+    [ALPHA[0], ALPHA[1], ALPHA[2]] * 9,
+    [ALPHA[1], ALPHA[3], ALPHA[4]] * 8 + [ALPHA[0]],
+    [ALPHA[4]] + [ALPHA[0]] * 10 + [ALPHA[3]] + [ALPHA[2]] * 10 + [ALPHA[4], ALPHA[3]] + [ALPHA[1]] * 7,
+]
+
+
 def build(rows_spec, name="s"):
     rows = []
     for i, (kind, ln, strand) in enumerate(rows_spec):
@@ -72,7 +82,7 @@ class C12(Check):
 
     def shards(self, tier):
         k = self.bounds(tier)["max_rows"]
-        out = [("one", i, k) for i in range(5)] + [("huge",)]
+        out = [("one", i, k) for i in range(5)] + [("huge",)] + [("manyrows", i) for i in range(len(MANYROWS))]
         if tier == "quick":
             out += [("pre", i, j, k) for i in range(5) for j in range(5)]
         else:
@@ -80,7 +90,7 @@ class C12(Check):
             out += [("pre3", i, j, l, k) for i in range(5) for j in range(5) for l in range(5)]
         return out
 
-    def check_scaffold(self, spec, ctx, two=False, orders=("asc", "desc", "asc-after-refused-add")):
+    def check_scaffold(self, spec, ctx, two=False, orders=("asc", "desc", "asc-after-refused-add", "asc-after-other-assembly")):
         """
         every query on ONE IndexedAssembly object per order (ascending and descending), so a lookup
         that depends on earlier lookups on the same object shows up as well
@@ -100,12 +110,17 @@ class C12(Check):
                 else:
                     ctx.count("duplicate_name_add_accepted")
                     continue
+            if order == "asc-after-other-assembly":
+                # history: a second IndexedAssembly with a shorter and a longer scaffold of the same names is built
+                # afterwards; the first one must not notice
+                self.other2 = IndexedAssembly("v", scaffolds=[build([ALPHA[2]] * 9, name=scffld.name)])
+                self.other = IndexedAssembly("u", scaffolds=[build([ALPHA[0]], name=s.name) for s in scaffolds])
             ln = scffld.length
             has_gap = any(k == "G" for k, _, _ in spec)
             queries = [(a, b) for a in range(1, ln + 3) for b in range(a, ln + 3)]
             if order == "desc":
                 queries.reverse()
-            if order == "asc-after-refused-add" and len(queries) > 40:
+            if order in ("asc-after-refused-add", "asc-after-other-assembly") and len(queries) > 40:
                 queries = queries[:: len(queries) // 40]
             for a, b in queries:
                 self.check_query(spec, scffld, ia, a, b, ctx, two, has_gap, order)
@@ -190,6 +205,10 @@ class C12(Check):
         kind = shard[0]
         if kind == "huge":
             return self.check_huge(ctx)
+        if kind == "manyrows":
+            self.check_scaffold(MANYROWS[shard[1]], ctx, orders=("asc", "desc"))
+            ctx.sample({"scaffold_rows": len(MANYROWS[shard[1]]), "queries": "all"})
+            return
         if kind == "one":
             self.check_scaffold([ALPHA[shard[1]]], ctx)
             self.check_scaffold([ALPHA[shard[1]]], ctx, two=True)
@@ -231,4 +250,4 @@ class C12(Check):
 
 CHECK = C12()
 # scope added in later rounds, kept in the evidence text
-CHECK.rule += ' Huge family: rows with coordinates around 2^32. A third query order after add_scaffold() was offered (and refused) a different scaffold with the same name.'
+CHECK.rule += ' Huge family: rows with coordinates around 2^32. A third query order after add_scaffold() was offered (and refused) a different scaffold with the same name; a fourth after other IndexedAssembly objects with same-named scaffolds of other lengths were built. Five scaffolds of 19-31 rows, every query.'
